@@ -29,15 +29,15 @@ func NewNilRules(r *Report, a *Analysis, s *Scope) *NilRules {
 }
 
 var maybeNilDeps = map[string]bool{
-	"(*github.com/beevik/etree.Document).Root":         true,
-	"(*github.com/beevik/etree.Element).FindElement":   true,
-	"(*github.com/beevik/etree.Element).SelectElement": true,
-	"(*github.com/beevik/etree.Element).SelectAttr":    true,
-	"(*github.com/beevik/etree.Document).FindElement":  true,
-	"(*github.com/beevik/etree.Document).SelectElement": true,
+	"(*github.com/beevik/etree.Document).Root":           true,
+	"(*github.com/beevik/etree.Element).FindElement":     true,
+	"(*github.com/beevik/etree.Element).SelectElement":   true,
+	"(*github.com/beevik/etree.Element).SelectAttr":      true,
+	"(*github.com/beevik/etree.Document).FindElement":    true,
+	"(*github.com/beevik/etree.Document).SelectElement":  true,
 	"(*github.com/beevik/etree.Element).FindElementPath": true,
-	"(*github.com/beevik/etree.Element).Parent":        true,
-	"encoding/pem.Decode":                               true,
+	"(*github.com/beevik/etree.Element).Parent":          true,
+	"encoding/pem.Decode":                                true,
 }
 
 // moduleMayReturnNilNil: module function (T*, error) with a return of (nil, nil).
